@@ -114,7 +114,7 @@ def c03_params(budget):
             yield {'twin': twin, 'kind': 'frag', 'frag': fi}
         for k in range(4 if budget == 'quick' else 24):
             yield {'twin': twin, 'kind': 'corrupt', 'bit': k * 5 + 1}
-        for w in (0, 0x12345678, struct.unpack('<I', b'DATA')[0]):
+        for w in (0, 0x12345678, struct.unpack('<I', b'DATA')[0], 0xFFFFFFFF, struct.unpack('<I', b'OKA\x80')[0], 0x80000000, struct.unpack('<I', b'\xc3\xa9AB')[0]):
             yield {'twin': twin, 'kind': 'badcmd', 'word': w}
 
 
@@ -906,6 +906,9 @@ def c19_run(p):
 
 # ---------------------------------------------------------------------------------------------------------------------
 def c02_params(budget):
+    for twin in ('sync', 'async'):
+        for version in (0x01000000, 0x01000001, 0x02000000, 0xFFFFFFFF):
+            yield {'kind': 'session', 'twin': twin, 'version': version}
     rnd = random.Random(2)
     for i in range(200):
         n = rnd.choice([0, 1, 5, 255, 4096, 70000])
@@ -913,7 +916,23 @@ def c02_params(budget):
                'n': n, 'fill': rnd.choice([0, 0xFF, 0x80, None]), 'ba': i % 2}
 
 
+def c02_session(p):
+    """Whatever protocol version the device announces, every host packet keeps the checked framing (the monitor re-parses each one)."""
+    out = []
+    dev = adbd.Adbd(shell=lambda c: [b'out'], stats={b'/f': (1, 2, 3)}, maxdata=4096, version=p['version'])
+    h = mk(p['twin'], dev)
+    for f in (lambda: h.call('shell', 'echo', decode=False), lambda: h.call('push', BytesIO(b'z' * 9000), '/sdcard/z'), lambda: h.call('stat', '/f')):
+        r = outcome(f)
+        if r[0] != 'ok':
+            out.append(fail(p, 'C02 session: the operation should succeed', 'ok', r))
+    out += [f for f in monitor_failures(p, h)]
+    h.finish()
+    return out
+
+
 def c02_run(p):
+    if p.get('kind') == 'session':
+        return c02_session(p)
     out = []
     M = L['adb_message']
     C = L['constants']
